@@ -1,5 +1,6 @@
 import I2P.Driver.Util
 import I2P.Mapping
+import I2P.Fixed
 namespace I2P.Driver
 open I2P I2P.Mapping
 
@@ -35,6 +36,28 @@ def dataOps : List (String × Op) := [
   ("decodeIntN", fun | [h] => do let b ← parseHex h; pure (okInt (decodeIntN b)) | _ => none),
   ("newInt", fun | [v, n] => do let v ← parseInt v; let n ← parseInt n; pure (okHex (newIntegerFromInt v n)) | _ => none),
   ("newIntFromBytes", fun | [h] => do let b ← parseHex h; pure (okHex (newIntegerFromBytes b)) | _ => none),
+  -- fixed-width helpers of data/encoding.go; the Go functions are typed, so only in-range arguments exist
+  ("fixedEncU", fun
+    | [w, v] => do
+      let w ← parseNat w; let v ← parseNat v
+      if (w = 2 ∨ w = 4 ∨ w = 8) ∧ v < 256 ^ w then pure (toHex (Fixed.encodeUint w v)) else none
+    | _ => none),
+  ("fixedEncI", fun
+    | [w, v] => do
+      let w ← parseNat w; let v ← parseInt v
+      if (w = 2 ∨ w = 4 ∨ w = 8) ∧ -((256 ^ w : Nat) : Int) ≤ 2 * v ∧ 2 * v < ((256 ^ w : Nat) : Int) then
+        pure (toHex (Fixed.encodeInt w v)) else none
+    | _ => none),
+  ("fixedDecU", fun
+    | [h] => do
+      let b ← parseHex h
+      if b.length = 2 ∨ b.length = 4 ∨ b.length = 8 then pure s!"{Fixed.decodeUint b}" else none
+    | _ => none),
+  ("fixedDecI", fun
+    | [h] => do
+      let b ← parseHex h
+      if b.length = 2 ∨ b.length = 4 ∨ b.length = 8 then pure s!"{Fixed.decodeInt b}" else none
+    | _ => none),
   ("readStr", fun
     | [h] => do
       let b ← parseHex h
